@@ -18,6 +18,7 @@ from .constants import PI_OVER_5
 from .hilbert import ij_to_s, s_to_anchor
 from .serialization import deserialize, serialize, FIRST_HILBERT_RESOLUTION, WORLD_CELL
 from ..geometry.spherical_polygon import SphericalPolygonShape
+from ..math import vec3
 
 # Reuse this object to avoid allocation
 _dodecahedron = DodecahedronProjection()
@@ -79,6 +80,29 @@ def lonlat_to_cell(lon_lat: LonLat, resolution: int) -> int:
             else:
                 cells.append({'cell': estimate, 'distance': distance})
 
+    # The lon/lat spiral above collapses towards a meridian at high latitudes, so repeat the
+    # search with the same spiral laid out in the tangent plane of the point (isotropic on the sphere)
+    center = to_cartesian(from_lonlat(lon_lat))
+    axis = (0.0, 0.0, 1.0) if abs(center[2]) < 0.9 else (1.0, 0.0, 0.0)
+    east = vec3.normalize(vec3.create(), vec3.cross(vec3.create(), axis, center))
+    north = vec3.cross(vec3.create(), center, east)
+    for i in range(N):
+        R = math.radians((i / N) * scale)
+        dx, dy = math.cos(i) * R, math.sin(i) * R
+        sample = to_spherical((
+            center[0] + dx * east[0] + dy * north[0],
+            center[1] + dx * east[1] + dy * north[1],
+            center[2] + dx * east[2] + dy * north[2]
+        ))
+        estimate = _spherical_to_estimate(sample, resolution)
+        estimate_key = serialize(estimate)
+        if estimate_key not in estimate_set:
+            estimate_set.add(estimate_key)
+            distance = a5cell_contains_point(estimate, lon_lat)
+            if distance > 0:
+                return estimate_key
+            cells.append({'cell': estimate, 'distance': distance})
+
     # As fallback, sort cells by distance and use the closest one
     cells.sort(key=lambda x: x['distance'], reverse=True)
     return serialize(cells[0]['cell'])
@@ -96,7 +120,10 @@ def _lonlat_to_estimate(lon_lat: LonLat, resolution: int) -> A5Cell:
     Returns:
         Approximate A5Cell
     """
-    spherical = from_lonlat(lon_lat)
+    return _spherical_to_estimate(from_lonlat(lon_lat), resolution)
+
+def _spherical_to_estimate(spherical: Spherical, resolution: int) -> A5Cell:
+    """Same as _lonlat_to_estimate, for a point given in (authalic) spherical coordinates."""
     origin = find_nearest_origin(spherical)
 
     dodec_point = _dodecahedron.forward(spherical, origin.id)
